@@ -44,6 +44,7 @@
  */
 
 #include "tsgAddonsCommon.hpp"
+#include "tsgVerifHooks.hpp"
 
 /*!
  * \ingroup TasmanianAddons
@@ -128,11 +129,14 @@ void loadNeededValues(std::function<void(double const x[], double y[], size_t th
                 [&, thread_id](void)->void{
                     int sample = 0;
                     do{
+                        TSG_VERIF_SCHED("ln:before_lock");
                         { // find the next sample
                             std::lock_guard<std::mutex> lock(checked_out_lock);
                             while ((sample < num_points) && checked_out[sample]) sample++;
                             if (sample < num_points) checked_out[sample] = true;
+                            TSG_VERIF_EVENT("ln_checkout", {(long long) thread_id, (long long) sample, (long long) num_points});
                         }
+                        TSG_VERIF_SCHED("ln:after_unlock");
                         if (sample < num_points) // if found, compute the next sample
                             model(xwrap.getStrip(sample), ywrap.getStrip(sample), thread_id);
                     }while(sample < num_points);
